@@ -1,0 +1,29 @@
+//! Verification hooks (compiled only with `--cfg daachorse_verif`): safe, bounds-checked access
+//! to the automaton's own transition functions for an arbitrary in-range state index.
+
+use super::DoubleArrayAhoCorasick;
+
+impl<V> DoubleArrayAhoCorasick<V> {
+    /// Number of double-array elements.
+    pub fn verif_num_slots(&self) -> usize {
+        self.states.len()
+    }
+
+    /// `child_index_unchecked` for an in-range `idx`.
+    pub fn verif_child(&self, idx: u32, label: u8) -> Option<u32> {
+        assert!((idx as usize) < self.states.len());
+        unsafe { self.child_index_unchecked(idx, label) }
+    }
+
+    /// `next_state_id_unchecked` for an in-range `idx`.
+    pub fn verif_next_state(&self, idx: u32, label: u8) -> u32 {
+        assert!((idx as usize) < self.states.len());
+        unsafe { self.next_state_id_unchecked(idx, label) }
+    }
+
+    /// `next_state_id_leftmost_unchecked` for an in-range `idx`.
+    pub fn verif_next_state_leftmost(&self, idx: u32, label: u8) -> u32 {
+        assert!((idx as usize) < self.states.len());
+        unsafe { self.next_state_id_leftmost_unchecked(idx, label) }
+    }
+}
